@@ -285,7 +285,7 @@ class Poly:
             return lc, self
         return lc, Poly({m: c / lc for m, c in self.t.items()})
 
-    def divexact(self, f, cap=4000):
+    def divexact(self, f, cap=200000):
         """self / f if f divides self exactly (multivariate division by leading terms), else None."""
         if not self.t:
             return ZERO
@@ -301,26 +301,39 @@ class Poly:
                     return None
                 q[d] = c / c_f
             return Poly(q)
+        if mono_div(self.lead(), lt_f) is None:
+            return None
+        if not _probably_divisible(self, f):
+            return None
+        import heapq
         r = dict(self.t)
+        heap = [_RevKey(m) for m in r]
+        heapq.heapify(heap)
+        rest = [(mf, cf) for mf, cf in f.t.items() if mf != lt_f]
         q = {}
-        steps = 0
-        while r:
-            steps += 1
-            if steps > cap:
-                return None
-            lt_r = max(r, key=mono_key)
+        while heap:
+            lt_r = heapq.heappop(heap).m
+            c0 = r.get(lt_r)
+            if c0 is None:
+                continue            # cancelled earlier (lazy deletion)
             m = mono_div(lt_r, lt_f)
             if m is None:
                 return None
-            c = r[lt_r] / c_f
+            del r[lt_r]
+            c = c0 / c_f
             q[m] = c
-            for mf, cf in f.t.items():
+            for mf, cf in rest:
                 mm = mono_mul(m, mf)
-                v = r.get(mm, _F0) - c * cf
-                if v:
-                    r[mm] = v
+                old = r.get(mm)
+                if old is None:
+                    r[mm] = -c * cf
+                    heapq.heappush(heap, _RevKey(mm))
                 else:
-                    r.pop(mm, None)
+                    v = old - c * cf
+                    if v:
+                        r[mm] = v
+                    else:
+                        del r[mm]
         return Poly(q)
 
     def pretty(self, names, maxterms=12):
@@ -343,6 +356,68 @@ class Poly:
 
 ONE = Poly.const(1)
 ZERO = Poly({})
+
+
+class _RevKey:
+    """heap entry ordering monomials from largest to smallest"""
+    __slots__ = ('m', 'k')
+
+    def __init__(self, m):
+        self.m = m
+        self.k = m[::-1]
+
+    def __lt__(self, o):
+        return self.k > o.k
+
+
+_PRIME = (1 << 61) - 1
+_RHO = {}
+
+
+def _rho(v):
+    r = _RHO.get(v)
+    if r is None:
+        import random
+        r = random.Random(v * 7919 + 13).randrange(2, _PRIME - 1)
+        _RHO[v] = r
+    return r
+
+
+def _univariate_mod(p, x):
+    """coefficients (by degree in variable x) of p with every other variable set to a fixed random value mod _PRIME"""
+    out = {}
+    for m, c in p.t.items():
+        val = c.numerator % _PRIME * pow(c.denominator, -1, _PRIME) % _PRIME
+        deg = 0
+        for v, k in m:
+            if v == x:
+                deg = k
+            else:
+                val = val * pow(_rho(v), k, _PRIME) % _PRIME
+        out[deg] = (out.get(deg, 0) + val) % _PRIME
+    return out
+
+
+def _probably_divisible(n, f):
+    """False => f certainly does not divide n (random univariate specialisation mod a prime)"""
+    lt = f.lead()
+    x = lt[-1][0]
+    fu = _univariate_mod(f, x)
+    nu = _univariate_mod(n, x)
+    df = max((d for d, c in fu.items() if c), default=-1)
+    if df <= 0:
+        return True          # specialisation degenerate: no information
+    inv = pow(fu[df], -1, _PRIME)
+    dn = max((d for d, c in nu.items() if c), default=-1)
+    while dn >= df:
+        c = nu.get(dn, 0)
+        if c:
+            k = c * inv % _PRIME
+            for d, fc in fu.items():
+                if fc:
+                    nu[dn - df + d] = (nu.get(dn - df + d, 0) - k * fc) % _PRIME
+        dn -= 1
+    return not any(c for d, c in nu.items() if d < df)
 
 
 class RF:
